@@ -383,9 +383,13 @@ pub fn write_b_workspace(dir: &Path, crate_prefix: &str, modules: &[(String, Str
 /// name, source) goes to crate i % ncrates. Module names are unique across the workspace, so
 /// diagnostics are attributed by file stem.
 pub fn write_v_crate(dir: &Path, name: &str, files: &[(String, String)], no_std: bool, deny_docs: bool) {
+    let ncrates = if files.len() >= 64 { 16 } else if files.len() >= 8 { 4 } else { 1 };
+    write_v_crate_n(dir, name, files, no_std, deny_docs, ncrates)
+}
+
+pub fn write_v_crate_n(dir: &Path, name: &str, files: &[(String, String)], no_std: bool, deny_docs: bool, ncrates: usize) {
     let _ = std::fs::remove_dir_all(dir);
     std::fs::create_dir_all(dir).unwrap();
-    let ncrates = if files.len() >= 64 { 16 } else if files.len() >= 8 { 4 } else { 1 };
     let mut members = Vec::new();
     for c in 0..ncrates {
         let cname = format!("{}_{}", name, c);
